@@ -657,6 +657,17 @@ func c14RunWrite(p *c14Plan, schedSeed uint64, replay []simrt.Choice, lenient, k
 		}
 	}
 	_ = secondAt
+	if closed && v.Class == "" && !out.Budget {
+		// Conn.Close after a failed write closes what every Conn.Close closes
+		if pr.Conn.CloseCalls == 0 {
+			v.Violate("transport-not-closed", "transport not closed by Conn.Close after a failed write", "%s: Conn.Close returned, the transport's Close was never called", where)
+		}
+		for _, pk := range out.Parked {
+			if strings.HasPrefix(pk.Task, "go@") {
+				v.Violate("reader-not-ended", "reader goroutine still running after Conn.Close", "%s: the reader is still parked after Conn.Close: %v", where, out.Parked)
+			}
+		}
+	}
 	if p.EndAfterWrite && v.Class == "" && !out.Budget && closed {
 		bound := time.Duration(p.ReadTimeoutS)*time.Second + time.Duration(p.EOFCostMs)*time.Millisecond + time.Second
 		for i, d := range lateErrs {
